@@ -42,6 +42,17 @@ func (fc *FnCtx) calleeOf(cc *ssa.CallCommon) (name string, fn *ssa.Function, ki
 
 func (fc *FnCtx) call(in ssa.Instruction, cc *ssa.CallCommon, pos token.Pos) V {
 	name, fn, kind := fc.calleeOf(cc)
+	if fc.c != nil && fc.c.AtCall != nil && !fc.dry {
+		for callee, cls := range fc.c.AtCall {
+			if callee == name || callee == shortName(name) {
+				env := fc.newEnv(fc.cur, fc.entry)
+				site := fc.srcText(pos, isKind[*ast.CallExpr])
+				for _, cl := range cls {
+					fc.oblige("atcall", shortName(name)+"."+cl.Label+"{"+site+"}", env.evalBool(cl.E), pos, fc.clauseProps(cl), cl.Text)
+				}
+			}
+		}
+	}
 	var args []V
 	if cc.IsInvoke() {
 		args = append(args, fc.val(cc.Value))
@@ -559,7 +570,9 @@ func (fc *FnCtx) applyContractX(c *Contract, name string, args []V, sig *types.S
 		}
 	}
 	for _, en := range c.Ensures {
-		fc.assume(env2.evalBool(en.E))
+		if fc.tierActive(en.Props) {
+			fc.assume(env2.evalBool(en.E))
+		}
 	}
 	// a function that implements an interface / function-type contract also gives what that contract promises
 	for _, impl := range c.Impl {
